@@ -316,6 +316,42 @@ pub fn run(ctx: &Ctx) -> Outcome {
         per.push(json!({"scenario": explore::Sys::name(&s), "depth": depth, "states": st.states, "transitions": st.transitions, "depth_completed": st.depth_completed}));
         total.merge(&st);
     }
+    // a holder that goes away over a REAL socket: a seeder dials in (accept path, loopback TCP),
+    // is asked for its piece, and then ends its stream at a message boundary / in the middle of the
+    // Piece message / in the middle of a length prefix: the manager must forget it and make the
+    // piece assignable again
+    {
+        use crate::refwire::{self as rw, Msg as M};
+        let dir = core::private_cwd("c12", "dialin");
+        let t = crate::fixture::Torrent::new("t", 16384, &[("f", 16384 * 12)], true);
+        let hs = rw::encode(&rw::handshake(t.meta.info_hash(), b"-HS0001-dialinholder"));
+        let mut bits = vec![false; 12];
+        bits[3] = true;
+        let bf = rw::encode(&M::Bitfield(rw::bitfield_bytes(&bits)));
+        let un = rw::encode(&M::Unchoke);
+        let piece = rw::encode(&M::Piece(3, 0, t.pieces[3].clone()));
+        for (what, tail) in [("at a message boundary", vec![]), ("in the middle of a Piece message", piece[..1000].to_vec()), ("inside a length prefix", piece[..2].to_vec())] {
+            let mut chunks = vec![hs.clone(), bf.clone(), un.clone()];
+            if !tail.is_empty() {
+                chunks.push(tail);
+            }
+            match crate::c02::dial_in_exchange_fin(&t, &dir, chunks, true) {
+                Err(e) => ctx.machinery_error(format!("dial-in holder '{}' could not run: {}", what, e)),
+                Ok((_, after, _closed, snap)) => {
+                    let asked = rw::decode_stream(&after).0.iter().any(|m| matches!(m, M::Request(3, _, _)));
+                    per.push(json!({"scenario": format!("dial-in holder leaves {}", what), "was_asked_for_its_piece": asked}));
+                    if !asked {
+                        ctx.machinery_error(format!("dial-in holder '{}': the client never asked for the piece", what));
+                    }
+                    if let Some(s) = snap {
+                        if !s.peers.is_empty() || s.statuses.iter().any(|x| *x != Status::Missing) {
+                            ctx.violation("reservation-survives-holder-over-real-socket", format!("a peer that dialled in, was asked for piece 3 and ended its stream {} is still listed / its piece still reserved 1.5 s later: peers {:?}, statuses {:?}", what, s.peers.iter().map(|p| p.addr.clone()).collect::<Vec<_>>(), s.statuses), json!({"scenario": "dial-in-holder", "case": what, "history": []}));
+                        }
+                    }
+                }
+            }
+        }
+    }
     let mut o = Outcome::new("model_checking");
     explore::stats_outcome(&total, &mut o);
     o.set("scenarios", Value::Array(per));
@@ -326,6 +362,10 @@ pub fn run(ctx: &Ctx) -> Outcome {
 
 pub fn replay(_ctx: &Ctx, r: &Value) -> i32 {
     let name = r["scenario"].as_str().unwrap();
+    if name == "dial-in-holder" {
+        println!("a real-socket exchange ({}); `./check C12` repeats it", r["case"]);
+        return 1;
+    }
     for (s, _) in crate::c02::reservation_scenarios() {
         if explore::Sys::name(&s) == name {
             return explore::replay_verbose(&s, &explore::hist_from_json(&r["history"]), "C12");
